@@ -189,6 +189,7 @@ func (r *Recorder) IsKnown(sig string) bool {
 	for _, k := range r.known {
 		if k.Property == r.Prop && k.re.MatchString(sig) {
 			r.knownHits[k.Signature]++
+			r.counters["known:"+sig]++
 			return true
 		}
 	}
@@ -243,18 +244,23 @@ func trimStack(s string) string {
 	lines := strings.Split(s, "\n")
 	var keep []string
 	for _, l := range lines {
-		if strings.Contains(l, "multi-party-sig") && !strings.Contains(l, "verifharness/ev") {
+		if strings.Contains(l, "verifharness/ev") || strings.Contains(l, "runtime/debug") {
+			continue
+		}
+		if strings.Contains(l, "multi-party-sig") || strings.Contains(l, "/repo/") || strings.Contains(l, "fxamacker/cbor") || strings.Contains(l, "saferith") {
 			keep = append(keep, strings.TrimSpace(l))
 		}
-		if len(keep) >= 12 {
+		if len(keep) >= 24 {
 			break
 		}
 	}
 	return strings.Join(keep, "\n")
 }
 
-// PanicSite extracts "file.go:line" of the first library frame of a Guard message (for signatures).
+// PanicSite extracts the source file of the first library frame of a Guard message (for signatures);
+// panics raised inside a dependency without any library frame above them are attributed to the dependency.
 func PanicSite(msg string) string {
+	dep := ""
 	for _, l := range strings.Split(msg, "\n") {
 		if i := strings.Index(l, "/repo/"); i >= 0 {
 			s := l[i+len("/repo/"):]
@@ -262,11 +268,21 @@ func PanicSite(msg string) string {
 				s = s[:j]
 			}
 			if k := strings.LastIndex(s, ":"); k >= 0 {
-				// keep file only (line numbers move with unrelated edits)
+				// keep the file only (line numbers move with unrelated edits)
 				s = s[:k]
 			}
 			return s
 		}
+		if dep == "" && strings.HasPrefix(l, "/") && (strings.Contains(l, "fxamacker/cbor") || strings.Contains(l, "saferith")) {
+			if strings.Contains(l, "fxamacker/cbor") {
+				dep = "dep:cbor"
+			} else {
+				dep = "dep:saferith"
+			}
+		}
+	}
+	if dep != "" {
+		return dep
 	}
 	return "unknown"
 }
